@@ -338,13 +338,22 @@ def revision_facts(repo, revid):
             files[path] = (e.file_id, "symlink", tree.get_symlink_target(path), False, e.revision)
         else:
             files[path] = (e.file_id, e.kind, None, False, e.revision)
-    return {"testament": t.as_short_text(), "text": t.as_text(), "message": rev.message, "committer": rev.committer,
+    # the per-file graph and the inventory graph are stored next to the texts but attested by nothing
+    keys = [(v[0], v[4]) for v in files.values() if v[4] == revid]
+    tparents = {k: tuple(v) for k, v in repo.texts.get_parent_map(keys).items()}
+    iparents = {k: tuple(v) for k, v in repo.inventories.get_parent_map([(revid,)]).items()}
+    return {"text_parents": tparents, "inventory_parents": iparents,
+            "testament": t.as_short_text(), "text": t.as_text(), "message": rev.message, "committer": rev.committer,
             "timestamp": rev.timestamp, "timezone": rev.timezone, "parents": list(rev.parent_ids),
             "props": dict(rev.properties), "files": files}
 
 
-def diff_facts(a, b):
+def diff_facts(a, b, graphs=True):
+    """graphs=False: the per-file / inventory graphs are not compared (the patch-based formats
+    0.8/0.9 do not carry them; install_revision re-derives them from the parent inventories)"""
     for k in a:
+        if not graphs and k in ("text_parents", "inventory_parents"):
+            continue
         if a[k] != b[k]:
             if k == "files":
                 for p in sorted(set(a[k]) | set(b[k])):
@@ -491,10 +500,10 @@ def _bundle_text(spec, src, base, tgt, bfmt):
     return out.getvalue(), ids
 
 
-def _compare(spec, src, dst, revids):
+def _compare(spec, src, dst, revids, graphs=True):
     with src.lock_read(), dst.lock_read():
         for r in revids:
-            d = diff_facts(revision_facts(src, r), revision_facts(dst, r))
+            d = diff_facts(revision_facts(src, r), revision_facts(dst, r), graphs)
             if d:
                 return "revision %d: %s" % (ridx(spec, r), d)
     return None
@@ -529,7 +538,7 @@ def run_bundle(inp):
                 return {"ids": sorted(ridx(spec, r) for r in ids), "install_error": type(e).__name__}
             dst2.fetch(src, rid(spec, tgt))
             return {"ids": sorted(ridx(spec, r) for r in ids), "after": all_ids(spec, dst),
-                    "fetch": all_ids(spec, dst2), "problem": _compare(spec, src, dst, ids)}
+                    "fetch": all_ids(spec, dst2), "problem": _compare(spec, src, dst, ids, graphs=(bfmt == "4"))}
         finally:
             shutil.rmtree(dpath, ignore_errors=True)
             shutil.rmtree(dpath2, ignore_errors=True)
@@ -575,7 +584,7 @@ def run_btamper(inp):
             if foreign:
                 problem = "revisions the source does not have: %r" % (foreign,)
             else:
-                problem = _compare(spec, src, dst, now)
+                problem = _compare(spec, src, dst, now, graphs=(bfmt == "4"))
             after = sorted(ridx(spec, r) for r in now) if not foreign else None
             return {"rejected": rejected, "before": before, "after": after, "problem": problem,
                     "where": pos, "len": len(text)}
